@@ -263,6 +263,10 @@ class DenseSparse:
     def csr_matrix(shape):
         return Mat(np.zeros(shape))
 
+    @staticmethod
+    def issparse(x):
+        return isinstance(x, Mat)
+
 
 class Block:
     """stand-in for a Block: composition and cross-section suffix (contracts of getNuclides / getMicroSuffix /
@@ -421,3 +425,185 @@ def library_nuclide_absent_from_the_block_contributes_nothing(
         assert eq(m.chi[0], 1.0), "chi is that of the only fissioning nuclide present"
     else:
         assert eq(m.chi[0], 0.0)
+
+
+# ----------------------------------------------------------------------------- multiplier library, gamma data, odd shapes
+class SizedLibrary(Library):
+    """Library stand-in with the length of the real one (_XSLibrary.__len__ = number of nuclides): the code under
+    contract tests `if multLib:`"""
+
+    def __len__(self):
+        return len(self.nuclides)
+
+
+@lemma(gen={"nn": (1, 3), "ng": (1, 2), "nm": (1, 3)})
+def group_constants_with_a_multiplier_library(nn: int, ng: int, nm: int, n1: float, n2: float, n3: float,
+                                              a1: float, a2: float, b1: float, b2: float, c1: float, c2: float,
+                                              u1: float, u2: float, v1: float, v2: float, w1: float, w2: float, z: float):
+    """multLib (gamma production: the multiplier comes from ANOTHER library): Sigma_g = sum_i N_i sigma_i,g m_i,g with
+    sigma from `lib` and m from `multLib`; a nuclide without data in multLib contributes nothing (documented: reported,
+    not an error).  1..3 nuclides x 1..2 groups; multLib holds the LAST nm >= 1 of them (enumerated), so that the sum
+    starts with a skipped nuclide; lib carries a decoy multiplier z + 7 that must not be used."""
+    nn = choose(nn, 1, 3)
+    ng = choose(ng, 1, 2)
+    nm = choose(nm, 1, nn)
+    dens = [n1, n2, n3]
+    sig = [[a1, a2], [b1, b2], [c1, c2]]
+    mul = [[u1, u2], [v1, v2], [w1, w2]]
+    inMult = [i >= nn - nm for i in range(3)]
+    assume(any([dens[i] != 0 and inMult[i] for i in range(nn)]))
+    lib = library(nn, ng, sig, nu=[[z + 7.0, z + 7.0]] * 3)
+    mnucs = {}
+    for i in range(nn):
+        if inMult[i]:
+            mnucs[NAMES[i] + SFX] = new(Nuclide, name=NAMES[i], micros=new(Micro, neutronsPerFission=arr(mul[i], ng)), isotxsMetadata={})
+    multLib = new(SizedLibrary, nuclides=mnucs)
+    m = xsc.computeMacroscopicGroupConstants("fission", comp(nn, dens), lib, SFX, libType="micros", multConstant="neutronsPerFission", multLib=multLib)
+    assert m.shape == (ng,)
+    for g in range(ng):
+        expected = 0.0
+        for i in range(nn):
+            if inMult[i]:
+                expected = expected + dens[i] * sig[i][g] * mul[i][g]
+        assert eq(m[g], expected), "sum over the nuclides the multiplier library knows of N x sigma x multiplier"
+    assert eq(lib.nuclides["AAA"].micros.fission[0], a1), "the libraries are not changed"
+
+
+@lemma(gen=G)
+def gamma_group_constants_come_from_the_gamma_collection(nn: int, ng: int, n1: float, n2: float, n3: float,
+                                                         a1: float, a2: float, b1: float, b2: float, c1: float, c2: float,
+                                                         k1: float, k2: float, k3: float, z: float):
+    """libType='gammaXS': the gamma cross sections of the nuclides (their own collection, next to the neutron one which
+    carries decoy values z) are summed; with a multiplier found in the nuclide metadata (not in the gamma collection)
+    that scalar per nuclide is used.  1..3 nuclides x 1..2 groups."""
+    nn = choose(nn, 1, 3)
+    ng = choose(ng, 1, 2)
+    dens = [n1, n2, n3]
+    sig = [[a1, a2], [b1, b2], [c1, c2]]
+    kap = [k1, k2, k3]
+    assume(any([dens[i] != 0 for i in range(nn)]))
+    nucs = {}
+    for i in range(nn):
+        nucs[NAMES[i] + SFX] = new(Nuclide, name=NAMES[i], micros=new(Micro, total=arr([z, z + 1.0], ng), scale=arr([z, z], ng)),
+                                   gammaXS=new(Micro, total=arr(sig[i], ng)), isotxsMetadata={"scale": kap[i]})
+    lib = new(Library, nuclides=nucs)
+    m = xsc.computeMacroscopicGroupConstants("total", comp(nn, dens), lib, SFX, libType="gammaXS")
+    mk = xsc.computeMacroscopicGroupConstants("total", comp(nn, dens), lib, SFX, libType="gammaXS", multConstant="scale")
+    assert m.shape == (ng,) and mk.shape == (ng,)
+    for g in range(ng):
+        assert eq(m[g], wsum(nn, g, dens, sig)), "gamma data, not neutron data"
+        assert eq(mk[g], wsum(nn, g, dens, sig, [[kap[i], kap[i]] for i in range(3)])), "per-nuclide scalar from the metadata"
+    assert xsc._getLibTypeSuffix("micros") == "" and xsc._getLibTypeSuffix("gammaXS") == "Gamma" and xsc._getLibTypeSuffix("other") is None
+
+
+@lemma(gen={"ng": (1, 2), "nz": (1, 3)})
+def nuclide_without_data_of_another_length_contributes_nothing(ng: int, nz: int, n1: float, n2: float, a1: float, a2: float):
+    """a nuclide whose constants are all zero but stored with another number of groups (dummy / default data) adds
+    nothing - the result keeps the shape of the real data.  1..2 groups for A, 1..3 zero entries for B (enumerated)."""
+    ng = choose(ng, 1, 2)
+    nz = choose(nz, 1, 3)
+    assume(n1 != 0)
+    lib = library(1, ng, [[a1, a2]])
+    lib.nuclides["B" + SFX] = new(Nuclide, name="B", micros=new(Micro, fission=np.zeros(nz)), isotxsMetadata={})
+    m = xsc.computeMacroscopicGroupConstants("fission", {"A": n1, "B": n2}, lib, SFX, libType="micros")
+    assert m.shape == (ng,)
+    for g in range(ng):
+        assert eq(m[g], n1 * [a1, a2][g])
+
+
+# ----------------------------------------------------------------------------- one-group collapse, default data
+GC = {"ng": (1, 4), "s1": (0.0, 50.0), "s2": (0.0, 50.0), "s3": (0.0, 50.0), "s4": (0.0, 50.0), "p1": [0.0, 1.0, 2.5e14], "p2": [0.0, 3.0, 1e13],
+      "p3": [0.5, 7.0, 4e12], "p4": [0.0, 2.0, 5e14], "k": (0.1, 100.0)}
+
+
+@lemma(gen=GC)
+def collapsed_cross_section_is_the_flux_weighted_mean(ng: int, s1: float, s2: float, s3: float, s4: float, p1: float, p2: float, p3: float,
+                                                      p4: float, k: float):
+    """XSCollection.collapseCrossSection for 1..4 groups (enumerated), cross sections arbitrary, weights (flux) >= 0 and
+    not all zero: sigma x sum_g phi_g = sum_g sigma_g phi_g; hence between the smallest and the largest sigma_g of the
+    groups with flux, the common value when those agree, and unchanged by rescaling the flux"""
+    ng = choose(ng, 1, 4)
+    sig, phi = [s1, s2, s3, s4][:ng], [p1, p2, p3, p4][:ng]
+    assume(all(p >= 0 for p in phi) and any(p > 0 for p in phi) and k > 0)
+    one = XSCollection.collapseCrossSection(sig, phi)
+    assert eq(one * sum(phi), sum(s * p for s, p in zip(sig, phi))), "flux-weighted mean"
+    tol = 1e-9 * (1.0 + abs(one)) if NATIVE else 0.0
+    assert any(p > 0 and s <= one + tol for s, p in zip(sig, phi)) and any(p > 0 and s >= one - tol for s, p in zip(sig, phi)), "between min and max"
+    for s0, p0 in zip(sig, phi):
+        assert implies(p0 > 0 and all(implies(p > 0, s == s0) for s, p in zip(sig, phi)), eq(one, s0)), "the common value"
+    assert eq(XSCollection.collapseCrossSection(sig, [k * p for p in phi]), one), "independent of the flux normalisation"
+    assert eq(XSCollection.collapseCrossSection(np.array(sig), np.array(phi)), one), "arrays or lists"
+
+
+@lemma(gen={"n": (1, 4), "m": (1, 4)})
+def default_cross_sections_are_zero_vectors(n: int, m: int):
+    """XSCollection.getDefaultXs(numGroups) for 1..4 groups (two sizes in one run, enumerated): a vector of numGroups
+    zeros; asking again gives the same data, and a request for another size does not disturb it"""
+    n = choose(n, 1, 4)
+    m = choose(m, 1, 4)
+    a = XSCollection.getDefaultXs(n)
+    b = XSCollection.getDefaultXs(m)
+    a2 = XSCollection.getDefaultXs(n)
+    assert a.shape == (n,) and b.shape == (m,) and a2.shape == (n,)
+    assert all(eq(a[g], 0.0) for g in range(n)) and all(eq(b[g], 0.0) for g in range(m)) and all(eq(a2[g], 0.0) for g in range(n))
+
+
+# ----------------------------------------------------------------------------- comparing two collections
+def vec_collection(ng, vals):
+    """a real XSCollection (real constructor) with the vector data fission, nGamma, total (no matrices)"""
+    c = XSCollection(parent=None)
+    c.fission, c.nGamma, c.total = arr(vals[0], ng), arr(vals[1], ng), arr(vals[2], ng)
+    return c
+
+
+@lemma(gen={"ng": (1, 2)}, overrides={"armi.nuclearDataIO.xsCollections:sparse": "DenseSparse"})
+def collections_compare_equal_exactly_when_their_data_agree(ng: int, a1: float, a2: float, b1: float, b2: float, c1: float, c2: float,
+                                                            x1: float, x2: float, y1: float, y2: float, z1: float, z2: float):
+    """XSCollection.compare (with utils.properties.areEqual / numpyHackForEqual) at zero tolerance on two collections
+    holding three vector reactions of 1..2 groups (enumerated): True exactly when every value agrees"""
+    ng = choose(ng, 1, 2)
+    A = vec_collection(ng, [[a1, a2], [b1, b2], [c1, c2]])
+    B = vec_collection(ng, [[x1, x2], [y1, y2], [z1, z2]])
+    same_data = all([[a1, a2][g] == [x1, x2][g] and [b1, b2][g] == [y1, y2][g] and [c1, c2][g] == [z1, z2][g] for g in range(ng)])
+    assert A.compare(B, None) == same_data
+    assert A.compare(A, None), "a collection equals itself"
+
+
+# ----------------------------------------------------------------------------- merging two collections
+ATTRS = ["fission", "nGamma", "total"]
+
+
+def masked_collection(mask, vals, tag):
+    c = XSCollection(parent=tag)
+    for k in range(3):
+        if (mask // (2 ** k)) % 2 == 1:
+            c[ATTRS[k]] = np.array([vals[k], vals[k] + 1.0])
+    return c
+
+
+def leading(c):
+    return [None if c[a] is None else c[a][0] for a in ATTRS]
+
+
+@lemma(gen={"ma": (0, 7), "mb": (0, 7)})
+def collection_merge_takes_the_data_of_the_only_assigned_side_or_refuses(ma: int, mb: int, x0: float, x1: float, x2: float, y0: float, y1: float,
+                                                                         y2: float):
+    """XSCollection.merge for every pair of subsets of three reactions assigned on the two sides (8 x 8, enumerated),
+    values symbolic: nothing assigned on one side -> the result holds exactly the other side's data, identical to
+    its source; data on both sides -> AttributeError and the target is unchanged (the documented rule: 'can only merge
+    if one hasn't been assigned at all' - never a silent combination, whether the reactions overlap or not)"""
+    ma = choose(ma, 0, 7)
+    mb = choose(mb, 0, 7)
+    A, B = masked_collection(ma, [x0, x1, x2], "A"), masked_collection(mb, [y0, y1, y2], "B")
+    a0, b0 = leading(A), leading(B)
+    try:
+        A.merge(B)
+        refused = False
+    except AttributeError:
+        refused = True
+    assert refused == (ma != 0 and mb != 0)
+    got = leading(A)
+    want = a0 if (refused or mb == 0) else b0
+    for k in range(3):
+        assert (got[k] is None) == (want[k] is None) and (want[k] is None or eq(got[k], want[k])), "identical to its source / unchanged"
+    assert all((p is None) == (q is None) and (p is None or eq(p, q)) for p, q in zip(leading(B), b0)), "the source is not changed"
